@@ -28,9 +28,17 @@ CONVERTERS = [
     lambda: Converter([Record(prefix="a", uri_prefix="http://x/", prefix_synonyms=["A1"], uri_prefix_synonyms=["http://y/"]), Record(prefix="", uri_prefix="http://d/")], delimiter="/"),
 ]
 
+def _hooked():
+    from ..impl import HookedConverter
+
+    return HookedConverter(CONVERTERS[0]().records)
+
+
+CONVERTERS.append(_hooked)   # index 2: a subclass using the documented identifier hook (rejects 'y' / 'bad', strips a leading 'X')
+
 CELLS = ["http://x/1", "http://y/2", "a:1", "A1:2", "http://q/1", "zz:1", "nodelim", "", "http://x/\t1", 'a:"q"', "http://x/1\n2", "a:1\r2", "\ufeffa:1", "a:q/7", "http://x/C_1"]
 CELLS_SMALL = ["http://x/1", "A1:2", "zz:1", "", 'a:"q"', "a:1\r2", "\ufeffa:1", "a:q/7"]   # the last starts with a byte-order mark
-OTHER = ["k", "has\ttab", 'q"uote', "line\nbreak", "cr\rx", "", "com,ma"]
+OTHER = ["k", "has\ttab", 'q"uote', "line\nbreak", "cr\rx", "", "com,ma", " led", "trailed ", " q\"x"]
 SHORT = "<short-row>"   # a row with a single cell
 BLANK = "<blank-row>"   # an empty line
 
@@ -92,7 +100,7 @@ def check_file(conv_idx, op, table, column, header, sep, strict, passthrough, am
     fails = []
     conv = CONVERTERS[conv_idx]()
     rows = rows_of(table, column, conv_idx, shift)
-    head = ["#h1", "h 2"] if header == "hash" else ['h"1', "h 2"] if header != "multiline" else ["\ufeffmulti\nline", 'q"']
+    head = ["only"] if header == "narrow" else [" h1", " h 2"] if header == "blank-led" else ["#h1", "h 2"] if header == "hash" else ['h"1', "h 2"] if header != "multiline" else ["\ufeffmulti\nline", 'q"']
     path = os.path.join(tmpdir(), f"{os.getpid()}.tsv")
     with open(path, "w", newline="", encoding="utf-8") as fh:
         w = csv.writer(fh, delimiter=sep)
@@ -272,6 +280,21 @@ def extra_file_cases():
                         continue   # covered by the main table set
                     for strict, passthrough, ambiguous in FLAGS:
                         yield 0, op, list(table), column, header, "\t", strict, passthrough, ambiguous
+    # cells, other-column cells and header cells that begin or end with a blank, with both separators; a header narrower than the rows
+    Y = [" http://x/1", "http://x/1 ", " a:1", "a:1", "zz:1", ""]
+    for table in [(c,) for c in Y] + list(it.product(Y[:4], repeat=2)):
+        for op in ("file_compress", "file_expand"):
+            for column in (0, 1):
+                for header in (True, False, "blank-led", "narrow"):
+                    for sep in ("\t", ","):
+                        for strict, passthrough, ambiguous in FLAGS:
+                            yield 0, op, list(table), column, header, sep, strict, passthrough, ambiguous, 7
+    # a subclass with the identifier hook: cells the hook rewrites or rejects
+    Z = ["a:X1", "a:bad", "a:y", "A1:Xy", "http://x/X1", "http://x/bad", "a:1"]
+    for table in [(c,) for c in Z] + list(it.product(Z[:5], repeat=2)):
+        for op in ("file_compress", "file_expand"):
+            for strict, passthrough, ambiguous in FLAGS:
+                yield 2, op, list(table), 0, True, "\t", strict, passthrough, ambiguous
 
 
 def units(tier, seed):
@@ -308,6 +331,13 @@ def pd_cases(tier):
                                 continue
                             for index_kind in (("range", "reversed", "offset", "strings") if len(cells) >= 2 and target in ("none", "new") else ("range",)):
                                 yield 0, op, cells, column_pos, labelled, target, strict, passthrough, ambiguous, index_kind
+    Z = ["a:X1", "a:bad", "a:y", "A1:Xy", "http://x/X1", "http://x/bad", "a:1"]
+    for cells in [[c] for c in Z] + [list(t) for t in it.product(Z[:5], repeat=2)]:
+        for op in PD_OPS:
+            for strict, passthrough, ambiguous in FLAGS:
+                if ambiguous and op not in ("pd_compress", "pd_expand"):
+                    continue
+                yield 2, op, cells, 0, True, "none", strict, passthrough, ambiguous, "range"
 
 
 def run_unit(unit, ctx):
